@@ -283,6 +283,7 @@ func c10Exec(c *Case, generate bool) (*Violation, *execStats) {
 	// values for payloads come from their own stream so that replay (which does not draw) is unaffected
 	rv := simrt.NewRng(simrt.Mix(c.Seed, 4))
 	vg := gen.New(&rv, c.TreeP)
+	vg.WideInts = true
 	st.logf("pkg %s tree %s", c.Pkg, gen.Describe(s.model()))
 	if c.Seed%3 == 0 {
 		// equal-valued scalar leaves share one pointer (content unchanged): a writer must
